@@ -34,6 +34,9 @@ fn mk_key(i: usize) -> Key {
         0 => Key::from_name("m"),
         1 => Key::from_parts("m", vec![Label::new("a", "1"), Label::new("b", "2")]),
         2 => Key::from_static_parts("m", &L_BA), // equal to key 1, built differently
+        // two labels with the same name, spelled in either order: equal keys (one metric, listed once)
+        4 => Key::from_parts("z", vec![Label::new("zone", "a"), Label::new("zone", "b")]),
+        5 => Key::from_parts("z", vec![Label::new("zone", "b"), Label::new("zone", "a")]),
         _ => Key::from_name("n"),
     }
 }
@@ -61,6 +64,8 @@ fn alphabet() -> Vec<Op> {
         Op::Register(C, 3),
         Op::Inc(0, 2),
         Op::Inc(2, 5),
+        Op::Inc(4, 1),
+        Op::Inc(5, 3),
         Op::Set(0, 1.5),
         Op::Rec(0, 1.0),
         Op::Rec(0, 2.0),
@@ -613,7 +618,7 @@ fn main() {
     driver::main(CheckDef {
         prop: "C19",
         level: "model_checking",
-        rule: "E3: every sequence of depth <= 4 (thorough 6) over {63, 64, 65, 130 records into one histogram, one record, 65 records into another, snapshot} (windows around the 64-slot block size of the bucket); every sequence of the stated depth over 19 operations (describe with two different units / without unit and four texts, register of 4 keys incl. an equal key built differently and the same name under three kinds, counter/gauge/histogram updates, snapshot) on a fresh real DebuggingRecorder, plus a final snapshot; every snapshot compared with a reference (first-registration order, described-only metrics absent, latest description, unit kept, histogram values since the previous snapshot); all pairs of 3-step macro programs on two threads with local recorders; all programs of <= 2 local scopes (closure or guard, left normally or by a caught panic, optionally one nested scope) over two recorders on one thread, each recorder's snapshot listing exactly the emissions made while it was innermost; E1: all SC interleavings of a recording thread with a snapshotting thread; distinct = distinct snapshots",
+        rule: "E3: every sequence of depth <= 4 (thorough 6) over {63, 64, 65, 130 records into one histogram, one record, 65 records into another, snapshot} (windows around the 64-slot block size of the bucket); every sequence of the stated depth over 19 operations (describe with two different units / without unit and four texts, register of 4 keys incl. an equal key built differently, increments through a pair of equal keys whose two labels share a name and are spelled in either order and the same name under three kinds, counter/gauge/histogram updates, snapshot) on a fresh real DebuggingRecorder, plus a final snapshot; every snapshot compared with a reference (first-registration order, described-only metrics absent, latest description, unit kept, histogram values since the previous snapshot); all pairs of 3-step macro programs on two threads with local recorders; all programs of <= 2 local scopes (closure or guard, left normally or by a caught panic, optionally one nested scope) over two recorders on one thread, each recorder's snapshot listing exactly the emissions made while it was innermost; E1: all SC interleavings of a recording thread with a snapshotting thread; distinct = distinct snapshots",
         assumptions: &["E1: sequential consistency, one registry shard"],
         parts,
         run,
